@@ -143,8 +143,8 @@ class C03(DocProp):
         getattr(self, "_check_" + case["kind"])(case, col)
 
     def _check_relayout(self, case, col):
-        docs = [gen_doc(case["seed"], case["profile"], layout_seed=ls) for ls in case["layouts"]]
-        docs.append(gen_doc(case["seed"], case["profile"], wild_layout=False))
+        docs = [gen_doc(case["seed"], case["profile"], layout_seed=ls, scale=case.get("scale", 1)) for ls in case["layouts"]]
+        docs.append(gen_doc(case["seed"], case["profile"], wild_layout=False, scale=case.get("scale", 1)))
         self.feats_hist(col, docs[0].feats)
         for o in case["opts"]:
             outs = []
@@ -211,7 +211,7 @@ class C03(DocProp):
         if "text" in case:
             text, feats = case["text"], set(case.get("feats", []))
         else:
-            d = gen_doc(case["seed"], case["profile"])
+            d = gen_doc(case["seed"], case["profile"], scale=case.get("scale", 1))
             text, feats = d.text, d.feats
         self.feats_hist(col, feats)
         base = case["base"]
